@@ -377,13 +377,29 @@ def check_layout(ctx, prog):
     sb = ch[3][1]
     dvars = [v for s_ in ir.walk_stmts(sb) if s_.get('k') == 'decl' for v in s_['vars'] if T(f, v['t']).get('bits') == 32 and not T(f, v['t']).get('sg')]
     consts = sorted(set(const_val(w) for e in ir.stmt_exprs(sb) for w in walk_expr(e) if w.get('k') == 'int' and const_val(w) is not None and const_val(w) >= 0x400))
-    ctx.check(bool(dvars) and {0xd800, 0xdc00, 0x10000} <= set(consts) and lt_bound(f, ch[3][0], cv['id']) == 0xdc00, 'C08.layout', f['pq'], 'utf16toUtf8:surrogate arithmetic constants', fwhere(f, sb.get('l')),
-              'first surrogate < 0xdc00, d = ((c-0xd800)<<10 | (c2-0xdc00)) + 0x10000', 'surrogate pair arithmetic constants are %s, expected 0xd800, 0xdc00, 0x10000' % [hex(x) for x in consts])
+    ctx.check(bool(dvars) and lt_bound(f, ch[3][0], cv['id']) == 0xdc00, 'C08.layout', f['pq'], 'utf16toUtf8:first-surrogate range', fwhere(f, sb.get('l')),
+              'first surrogate is < 0xdc00', 'the surrogate branch is not selected by c < 0xdc00 (after c >= 0xd800)')
     if dvars:
         d = dvars[0]
-        ini = strip(d.get('init') or {})
-        shl = [const_val(w['y']) for w in walk_expr(ini) if w.get('k') == 'bin' and w.get('op') == '<<']
-        ctx.check(set(shl) == {10}, 'C08.layout', f['pq'], 'utf16toUtf8:surrogate shift', fwhere(f, d['l']), 'high surrogate contributes bits 10..19', 'high surrogate shifted by %s instead of 10' % shl)
+        # evaluate the recombination for corner pairs: code = 0x10000 + ((hi - 0xd800) << 10) + (lo - 0xdc00)
+        lows = [v for s_ in ir.walk_stmts(sb) if s_.get('k') == 'decl' for v in s_['vars'] if v['id'] != d['id'] and T(f, v['t']).get('int')]
+        import bytesets
+        bad = []
+        try:
+            for hi in (0xd800, 0xd801, 0xd83d, 0xd83f, 0xd840, 0xd87f, 0xdbff):
+                for lo in (0xdc00, 0xdc01, 0xde00, 0xdfff):
+                    env = {cv['id']: hi}
+                    if lows:
+                        env[lows[0]['id']] = lo
+                    got = bytesets.Evaluator(prog, f, env).ev(d['init']) & 0xffffffff
+                    want = 0x10000 + ((hi - 0xd800) << 10) + (lo - 0xdc00)
+                    ctx.evaluations += 1
+                    if got != want:
+                        bad.append((hi, lo, got, want))
+            ctx.check(not bad, 'C08.layout', f['pq'], 'utf16toUtf8:surrogate pair recombination', fwhere(f, d['l']), '28 corner pairs give 0x10000 + ((hi-0xd800)<<10) + (lo-0xdc00)',
+                      'the surrogate pair (%04x, %04x) is recombined to U+%X instead of U+%X: characters of some supplementary planes do not survive UTF-16 -> UTF-8' % (bad[0] if bad else (0, 0, 0, 0)))
+        except bytesets.Undecidable as ex:
+            ctx.undecided('C08.layout', f['pq'], 'utf16toUtf8:surrogate pair recombination', fwhere(f, d['l']), 'recombination expression not evaluable: %s' % ex)
         env = bits.Env(f)
         env.vars[d['id']] = bits.var_bits(d['id'], 32, known_zero_from=21)
         got = [bits.low(env.eval(e)) for e in stores_through(sb)]
@@ -425,10 +441,26 @@ def check_layout(ctx, prog):
         return stored_value(body)
     check_decoder(ctx, f, cv['id'], ch, stored_or_d)
     b4 = ch[3][1]
-    consts = sorted(set(const_val(w) for e in ir.stmt_exprs(b4) for w in walk_expr(e) if w.get('k') == 'int' and const_val(w) is not None and const_val(w) >= 0x3ff))
-    shr = [const_val(w['y']) for e in ir.stmt_exprs(b4) for w in walk_expr(e) if w.get('k') == 'bin' and w.get('op') == '>>']
-    ctx.check({0x10000, 0xd800, 0xdc00, 0x3ff} <= set(consts) and set(shr) == {10}, 'C08.layout', f['pq'], 'utf8toUtf16:surrogate split constants', fwhere(f, b4.get('l')),
-              'd = code - 0x10000; (d >> 10) + 0xd800, (d & 0x3ff) + 0xdc00', 'surrogate split uses constants %s and shifts %s' % ([hex(x) for x in consts], shr))
+    # the split is evaluated for corner codes: units = 0xd800 + ((code-0x10000) >> 10), 0xdc00 + ((code-0x10000) & 0x3ff)
+    import bytesets
+    dv = [v for s_ in ir.walk_stmts(b4) if s_.get('k') == 'decl' for v in s_['vars'] if strip(v.get('init') or {}).get('k') == 'bin' and strip(v['init']).get('op') == '-' and const_val(strip(v['init'])['y']) == 0x10000]
+    stores4 = stores_through(b4)
+    bad = []
+    if dv and len(stores4) == 2:
+        try:
+            for code in (0x10000, 0x10001, 0x103ff, 0x10400, 0x1f600, 0x1ffff, 0x20000, 0x2ffff, 0x100000, 0x10ffff):
+                dval = code - 0x10000
+                got = tuple(bytesets.Evaluator(prog, f, {dv[0]['id']: dval}).ev(e) & 0xffffffff for e in stores4)
+                want = (0xd800 + (dval >> 10), 0xdc00 + (dval & 0x3ff))
+                ctx.evaluations += 1
+                if got != want:
+                    bad.append((code, got, want))
+            ctx.check(not bad, 'C08.layout', f['pq'], 'utf8toUtf16:surrogate split', fwhere(f, b4.get('l')), '10 corner codes split into (0xd800 + (d >> 10), 0xdc00 + (d & 0x3ff))',
+                      'U+%X is split into units %s instead of %s' % ((bad[0][0], [hex(x) for x in bad[0][1]], [hex(x) for x in bad[0][2]]) if bad else (0, [], [])))
+        except bytesets.Undecidable as ex:
+            ctx.undecided('C08.layout', f['pq'], 'utf8toUtf16:surrogate split', fwhere(f, b4.get('l')), 'split expressions not evaluable: %s' % ex)
+    else:
+        ctx.undecided('C08.layout', f['pq'], 'utf8toUtf16:surrogate split', fwhere(f, b4.get('l')), 'expected d = code - 0x10000 and two stored units')
 
     f = fn1(prog, 'asl::String::Enumerator::operator*')
     ctx.analysed(f)
